@@ -60,6 +60,14 @@ func (f *Same) Call(s *slip.Scope, args slip.List, depth int) slip.Object {
 }
 
 func same(x, y slip.Object) slip.Object {
+	// NormalizeNumber converts a bignum and a ratio to floats, to a different
+	// precision depending on the order, so compare the exact values instead.
+	if rx, ry := asRat(x), asRat(y); rx != nil && ry != nil {
+		if rx.Cmp(ry) != 0 {
+			return nil
+		}
+		return y
+	}
 	x, y = slip.NormalizeNumber(x, y)
 	switch tx := x.(type) {
 	case slip.Fixnum:
@@ -92,4 +100,16 @@ func same(x, y slip.Object) slip.Object {
 		}
 	}
 	return y
+}
+
+// asRat returns the exact value of a bignum or ratio and nil for any other
+// object.
+func asRat(obj slip.Object) *big.Rat {
+	switch to := obj.(type) {
+	case *slip.Bignum:
+		return new(big.Rat).SetInt((*big.Int)(to))
+	case *slip.Ratio:
+		return (*big.Rat)(to)
+	}
+	return nil
 }
